@@ -170,10 +170,24 @@ theorem reversed_quantifier_rejected : ∀ fl : Flags,
     rejected (parse (pat! "x{99999999999999999999,1}") fl) = true := by
   all_flags
 
-/-- Contrast: in-order bounds are accepted; two saturated bounds compare equal and are accepted. -/
+/-- INSTANCES (all flags): two bounds that BOTH saturate the 64-bit `usize` are still compared (by
+their digit strings, `decimal_digits`): a reversed pair is a syntax error, also with leading zeros
+and with different lengths.  (Before the fix "reversed quantifier bounds beyond usize::MAX are an
+error" both read as `usize::MAX` and the pair was accepted.) -/
+theorem reversed_saturated_quantifier_rejected : ∀ fl : Flags,
+    rejected (parse (pat! "x{99999999999999999999,99999999999999999998}") fl) = true ∧
+    rejected (parse (pat! "x{0099999999999999999999,99999999999999999998}") fl) = true ∧
+    rejected (parse (pat! "x{100000000000000000000,99999999999999999999}") fl) = true ∧
+    rejected (parse (pat! "x{18446744073709551616,18446744073709551615}") fl) = true := by
+  all_flags
+
+/-- Contrast: in-order bounds are accepted; two saturated bounds in order (or equal, also up to
+leading zeros) are accepted. -/
 example : ∀ fl : Flags,
     accepted (parse (pat! "a{1,2}") fl) = true ∧ accepted (parse (pat! "a{2,2}") fl) = true ∧
-    accepted (parse (pat! "x{99999999999999999999,99999999999999999998}") fl) = true := by
+    accepted (parse (pat! "x{99999999999999999998,99999999999999999999}") fl) = true ∧
+    accepted (parse (pat! "x{99999999999999999999,99999999999999999999}") fl) = true ∧
+    accepted (parse (pat! "x{99999999999999999999,099999999999999999999}") fl) = true := by
   all_flags
 
 /-- `a{m,n}` for single digits. -/
@@ -288,6 +302,7 @@ end Regress.C08
 #print axioms Regress.C08.quantified_lookbehind_rejected
 #print axioms Regress.C08.quantified_lookahead_iff_legacy
 #print axioms Regress.C08.reversed_quantifier_rejected
+#print axioms Regress.C08.reversed_saturated_quantifier_rejected
 #print axioms Regress.C08.single_digit_bounds
 #print axioms Regress.C08.lone_brace_accepted_iff_legacy
 #print axioms Regress.C08.unicode_lone_bracket_first_rejected
